@@ -11,6 +11,8 @@
 #include "Jones.h"
 #include "Estimate.h"
 #include "Vector.h"
+#include "Matrix.h"
+#include "Stokes.h"
 #include "complex_math.h"
 
 static double rd64 (const std::string& s) { unsigned long long u = std::stoull (s, 0, 16); double d; memcpy (&d, &u, 8); return d; }
@@ -80,6 +82,12 @@ int main ()
       else if (op == "tm.est") { Estimate<double> e (rd64 (t[1]), rd64 (t[2])); o << " " << (finite (e) ? 1 : 0); }
       else if (op == "tm.estf") { Estimate<float> e (rd32 (t[1]), rd32 (t[2])); o << " " << (finite (e) ? 1 : 0); }
       else if (op == "tm.estld") { Estimate<long double> e (rd80 (t[1]), rd80 (t[2])); o << " " << (finite (e) ? 1 : 0); }
+      // classes derived from Vector (Stokes; Matrix is a Vector of Vectors): the lifting must reach them through the base class
+      else if (op == "tm.stokes") { Stokes<double> v; for (unsigned i=0;i<4;i++) v[i] = rd64 (t[1+i]); o << " " << (true_math::finite (v) ? 1 : 0); }
+      else if (op == "tm.stokesf") { Stokes<float> v; for (unsigned i=0;i<4;i++) v[i] = rd32 (t[1+i]); o << " " << (true_math::finite (v) ? 1 : 0); }
+      else if (op == "tm.mat23") { Matrix<2,3,double> m; for (unsigned i=0;i<2;i++) for (unsigned j=0;j<3;j++) m[i][j] = rd64 (t[1+3*i+j]); o << " " << (true_math::finite (m) ? 1 : 0); }
+      else if (op == "tm.mat22") { Matrix<2,2,double> m; for (unsigned i=0;i<2;i++) for (unsigned j=0;j<2;j++) m[i][j] = rd64 (t[1+2*i+j]); o << " " << (true_math::finite (m) ? 1 : 0); }
+      else if (op == "tm.vecvec") { Vector<2, Vector<2,double> > m; for (unsigned i=0;i<2;i++) for (unsigned j=0;j<2;j++) m[i][j] = rd64 (t[1+2*i+j]); o << " " << (true_math::finite (m) ? 1 : 0); }
       else if (op == "tm.kd") konst<double> ((unsigned) std::stoul (t[1]), o);
       else if (op == "tm.kf") konst<float> ((unsigned) std::stoul (t[1]), o);
       else if (op == "tm.kld") konst<long double> ((unsigned) std::stoul (t[1]), o);
